@@ -15,7 +15,12 @@ for m in sorted(glob.glob(os.path.join(ROOT, "seeded", "*", "meta.json"))):
     det = x.get("detected_by") or "**not detected**"
     rows.append(f"| `{name}`: {x.get('title','')} | {x['property']} | {str(x.get('needs_to_manifest',''))[:160]} | {'yes' if x.get('confirmed') else 'NO'} | {det} | `{ops}` |")
 def put(doc, tag, body):
-    return re.sub(rf"<!-- {tag}-BEGIN -->.*?<!-- {tag}-END -->", f"<!-- {tag}-BEGIN -->\n{body}\n<!-- {tag}-END -->", doc, flags=re.S)
+    a = doc.index(f"<!-- {tag}-BEGIN -->") + len(f"<!-- {tag}-BEGIN -->")
+    b = doc.index(f"<!-- {tag}-END -->")
+    return doc[:a] + "\n" + body + "\n" + doc[b:]
+order = open(os.path.join(ROOT, "notes", "design5", "ORDER")).read().split()
+sec5 = "\n".join(open(os.path.join(ROOT, "notes", "design5", pid + ".md")).read().rstrip("\n") + "\n" for pid in order)
+d = put(d, "SECTION5", sec5.rstrip("\n"))
 d = put(d, "STATUS-TABLE", status.strip())
 d = put(d, "SEEDED-TABLE", "\n".join(rows))
 open(os.path.join(ROOT, "DESIGN.md"), "w").write(d)
